@@ -33,21 +33,21 @@ Definition spec_methods : list gmethod := [
     false false [];
   mkgm "GetXattr" ["attr"] "" ""
     []
-    false false ["buf, err := c.xattrWalkRead(attr)";
+    false false ["_v2, err := c.xattrWalkRead(attr)";
      "if err != nil { return nil, err }";
-     "return buf, nil"];
+     "return _v2, nil"];
   mkgm "Link" ["target"; "newname"] "load" ""
     [mkgs (GAlways) "tlink" [("Directory", GRecvFid); ("Name", GParam "newname"); ("Target", GParamFid "target")] "rlink" "" ["err"] ""]
     false false [];
   mkgm "ListXattrs" [] "" ""
     []
-    false false ["buf, err := c.xattrWalkRead("""")";
+    false false ["_v1, err := c.xattrWalkRead("""")";
      "if err != nil { return nil, err }";
-     "var names []string";
-     "for _, name := range strings.Split(string(buf), ""\x00"") { if name != """" { names = append(names, name) } }";
-     "return names, nil"];
+     "var _v3 []string";
+     "for _, _v4 := range strings.Split(string(_v1), ""\x00"") { if _v4 != """" { _v3 = append(_v3, _v4) } }";
+     "return _v3, nil"];
   mkgm "Lock" ["pid"; "locktype"; "flags"; "start"; "length"; "client"] "load" ""
-    [mkgs (GAlways) "tlock" [("fid", GRecvFid); ("Type", GParam "locktype"); ("Flags", GParam "flags"); ("Start", GParam "start"); ("Length", GParam "length"); ("PID", GConv "int32" (GParam "pid")); ("Client", GParam "client")] "rlock" "" ["r.Status"; "err"] ""]
+    [mkgs (GAlways) "tlock" [("fid", GRecvFid); ("Type", GParam "locktype"); ("Flags", GParam "flags"); ("Start", GParam "start"); ("Length", GParam "length"); ("PID", GConv "int32" (GParam "pid")); ("Client", GParam "client")] "rlock" "" ["rlock.Status"; "err"] ""]
     false false [];
   mkgm "Mkdir" ["name"; "permissions"; "uid"; "gid"] "load" ""
     [mkgs (GWhen "versionSupportsTucreation") "tumkdir" [("Directory", GRecvFid); ("Name", GParam "name"); ("Permissions", GParam "permissions"); ("GID", GParam "gid"); ("UID", GParam "uid")] "rumkdir" "" ["rumkdir.QID"; "nil"] "";
@@ -105,15 +105,15 @@ Definition spec_methods : list gmethod := [
     true false [];
   mkgm "WalkGetAttr" ["components"] "load" ""
     [mkgs (GWhen "versionSupportsTwalkgetattr") "twalkgetattr" [("fid", GRecvFid); ("newFID", GNewFid); ("Names", GParam "components")] "rwalkgetattr" "" ["rwalkgetattr.QIDs"; "c.client.newFile(fid(id))"; "rwalkgetattr.Valid"; "rwalkgetattr.Attr"; "nil"] "refused"]
-    true false ["unless versionSupportsTwalkgetattr { qids, file, err := c.Walk(components) if err != nil { return nil, nil, AttrMask{}, Attr{}, err } _, valid, attr, err := file.GetAttr(AttrMaskAll) if err != nil { file.Close() return nil, nil, AttrMask{}, Attr{}, err } return qids, file, valid, attr, nil }"];
+    true false ["unless versionSupportsTwalkgetattr { _v2, _v3, err := c.Walk(components) if err != nil { return nil, nil, AttrMask{}, Attr{}, err } _, _v5, _v6, err := _v3.GetAttr(AttrMaskAll) if err != nil { _v3.Close() return nil, nil, AttrMask{}, Attr{}, err } return _v2, _v3, _v5, _v6, nil }"];
   mkgm "WriteAt" ["p"; "offset"] "" ""
     []
     false false ["return chunk(c.client.payloadSize, c.writeAt, p, offset)"];
   mkgm "newFile" ["fid"] "" ""
     []
-    false false ["cf := &clientFile{ client: c, fid: fid, }";
-     "runtime.SetFinalizer(cf, (*clientFile).Close)";
-     "return cf"];
+    false false ["_v2 := &clientFile{ client: c, fid: fid, }";
+     "runtime.SetFinalizer(_v2, (*clientFile).Close)";
+     "return _v2"];
   mkgm "readAt" ["p"; "offset"] "load" ""
     [mkgs (GAlways) "tread" [("fid", GRecvFid); ("Offset", GConv "uint64" (GParam "offset")); ("Count", GLen "uint32" "p")] "rread" "Data<-p" [] ""]
     false false ["if len(p) > 0 && len(rread.Data) > 0 && &rread.Data[0] != &p[0] { copy(p, rread.Data) }";
@@ -129,13 +129,13 @@ Definition spec_methods : list gmethod := [
      "if !ok { return nil, ErrOutOfFIDs }";
      "rxattrwalk := rxattrwalk{}";
      "if err := c.client.sendRecv(&txattrwalk{fid: c.fid, newFID: fid(id), Name: attr}, &rxattrwalk); err != nil { c.client.releaseFID(id, err) return nil, err }";
-     "xattrFile := c.client.newFile(fid(id))";
-     "defer xattrFile.Close()";
+     "_v6 := c.client.newFile(fid(id))";
+     "defer _v6.Close()";
      "if rxattrwalk.Size == 0 { return []byte{}, nil }";
-     "buf := make([]byte, rxattrwalk.Size)";
-     "n, err := xattrFile.ReadAt(buf, 0)";
+     "_v7 := make([]byte, rxattrwalk.Size)";
+     "_v8, err := _v6.ReadAt(_v7, 0)";
      "if err != nil && err != io.EOF { return nil, err }";
-     "return buf[:n], nil"]
+     "return _v7[:_v8], nil"]
 ].
 
 (** ---- values ---- *)
